@@ -112,6 +112,8 @@ type serCase struct {
 	Conf   float64   `json:"conf"`
 	N      int       `json:"n"`
 	Salt   int64     `json:"salt"`
+	Shape  int       `json:"shape"` // summ: 0 mixed shapes by salt, 1 numerator 1000x the denominator, 2 constant samples, 3 narrow samples on different scales
+	Big    int       `json:"big"`   // series: >0 = one record in two stands for that many measurements (cells beyond 32 / 64 values)
 	Date   serDate   `json:"date"`
 	Dates  []serDate `json:"dates"`
 }
@@ -780,11 +782,49 @@ func serRunPerm(pl *serPlan, pi int, perm []int, style string, nfiles int) (res 
 			return
 		}
 	} else {
+		// style "stepwise": the series are also built after prefixes of the history (a service that
+		// refreshes its series after every upload); the series of the whole set must not depend on
+		// having been asked before.  Intermediate results are not judged (no expectation for them).
+		every := 0
+		if style == "stepwise" {
+			every = 1 + (pi+pl.caseNo)%3
+			if len(expanded) > 12 {
+				every = len(expanded)/7 + 1
+			}
+		}
 		for gi, g := range expanded {
 			bld.Add(mkJ(g, expJ[gi]))
+			if every > 0 && (gi+1)%every == 0 && gi+1 < len(expanded) {
+				if _, err, pv := serAll(bld, pl.how); pv != nil || err != nil {
+					sig := "panic-in-AllComparisonSeries"
+					if pv == nil {
+						sig = "error-from-AllComparisonSeries"
+					} else if c.Policy == "combine" {
+						var done []serRec
+						seen := map[int]bool{}
+						for _, gg := range expanded[:gi+1] {
+							for _, i := range gg {
+								if !seen[i] {
+									seen[i] = true
+									done = append(done, c.Recs[i])
+								}
+							}
+						}
+						if m, _ := serMixedBaseline(&serCase{Recs: done}); m {
+							sig = "combine-panics-when-an-experiment-of-a-repeated-point-has-no-baseline"
+						}
+					}
+					res.v = Verdict{Signature: sig, Detail: fmt.Sprintf("AllComparisonSeries(nil, %s) after %d of %d results: panic %v, error %v; order=%v style=%s", c.Policy, gi+1, len(expanded), pv, err, perm, style)}
+					return
+				}
+			}
 		}
 	}
-	for k := 0; k < serCalls; k++ {
+	calls := serCalls
+	if (pl.caseNo+pi)%16 == 0 {
+		calls = 3 * serCalls // a dozen calls on one builder: the k-th must not differ from the first
+	}
+	for k := 0; k < calls; k++ {
 		css, err, pv := serAll(bld, pl.how)
 		order := func() string {
 			return fmt.Sprintf("order=%v style=%s call=%d units=%v benches=%v hashes=%v", perm, style, k, nm.units, nm.bench, nm.hashes)
@@ -871,6 +911,15 @@ func serReplaySeries(c *serCase, caseNo int, dir string) Verdict {
 		for j := 1; j < m; j++ {
 			pl.reps[i] = append(pl.reps[i], pool[rnd.Intn(len(pool))]+float64(j)/16)
 		}
+		if c.Big > 0 && (i%2 == caseNo%2 || n == 1) {
+			// a benchmark run with a large -count: this record stands for c.Big measurements, all
+			// different from each other and from those of every other record, in no particular order
+			m = c.Big
+			pl.reps[i] = pl.reps[i][:1]
+			for j := 1; j < m; j++ {
+				pl.reps[i] = append(pl.reps[i], float64(1+(j*37)%m)+float64(i+1)/64+pool[rnd.Intn(3)]*1024)
+			}
+		}
 		if m > maxm {
 			maxm = m
 		}
@@ -893,12 +942,18 @@ func serReplaySeries(c *serCase, caseNo int, dir string) Verdict {
 		switch {
 		case pi%3 == 1:
 			styles[pi] = "merged"
-		case pi%24 == 2 || pi == len(perms)-1:
+		case pi%24 == 2 || pi == len(perms)-1 && len(perms) != 6:
 			styles[pi] = "files"
 		case pi%6 == 3 || pi == 0 && len(perms) == 1:
 			// multi-unit results carrying an extra measurement, in first position, of a unit the
 			// builder's filter drops: the series must be those of the unfiltered records
 			styles[pi] = "filtered"
+		case pi%6 == 5 || pi%12 == 8:
+			// AllComparisonSeries also called between the adds
+			styles[pi] = "stepwise"
+		}
+		if len(perms) == 2 && pi == 1 && caseNo%2 == 0 {
+			styles[pi] = "stepwise"
 		}
 		nfiles[pi] = 1 + rnd.Intn(3)
 	}
@@ -962,8 +1017,28 @@ func serReplaySeries(c *serCase, caseNo int, dir string) Verdict {
 
 func serReplaySumm(c *serCase) Verdict {
 	rnd := newRand(c.Salt)
-	mk := func(n int) []float64 {
+	mk := func(n int, role int) []float64 {
 		v := make([]float64, n)
+		// shapes that make the attainable range tight, so that a summary computed from anything
+		// but resamples of exactly these two samples leaves it
+		switch c.Shape {
+		case 1: // numerator three orders of magnitude above the denominator
+			for i := range v {
+				v[i] = []float64{1000, 1}[role] * (1 + float64(rnd.Intn(1000))/4000)
+			}
+			return v
+		case 2: // constant samples: low = centre = high = a/b
+			x := []float64{3, 7, 0.1, 1e6, 123456.789}[int(c.Salt%5+int64(role)*2)%5]
+			for i := range v {
+				v[i] = x
+			}
+			return v
+		case 3: // narrow samples on different scales
+			for i := range v {
+				v[i] = []float64{250, 0.04}[role] * (1 + float64(rnd.Intn(64))*1e-9)
+			}
+			return v
+		}
 		for i := range v {
 			switch c.Salt % 4 {
 			case 3:
@@ -978,13 +1053,13 @@ func serReplaySumm(c *serCase) Verdict {
 		}
 		return v
 	}
-	nu, de := mk(c.NNum), mk(c.NDen)
+	nu, de := mk(c.NNum, 0), mk(c.NDen, 1)
 	opts := &benchseries.BuilderOptions{
 		Filter: ".unit:/.*/", Series: "ser-stamp", Table: "", Experiment: "run", Compare: "role",
 		Numerator: "num", Denominator: "den", NumeratorHash: "nh", DenominatorHash: "dh",
 		Warn: func(string, ...interface{}) {},
 	}
-	build := func(reverse bool) ([]*benchseries.ComparisonSeries, error) {
+	build := func(reverse bool, every int) ([]*benchseries.ComparisonSeries, error) {
 		b, err := benchseries.NewBuilder(opts)
 		if err != nil {
 			return nil, err
@@ -1013,18 +1088,29 @@ func serReplaySumm(c *serCase) Verdict {
 				rs[i], rs[j] = rs[j], rs[i]
 			}
 		}
-		for _, r := range rs {
+		for i, r := range rs {
 			b.Add(r)
+			if every > 0 && (i+1)%every == 0 && i+1 < len(rs) {
+				// the series asked for in the middle of the history
+				if _, err := b.AllComparisonSeries(nil, benchseries.DUPE_REPLACE); err != nil {
+					return nil, err
+				}
+			}
 		}
 		return b.AllComparisonSeries(nil, benchseries.DUPE_REPLACE)
 	}
-	css1, err := build(false)
+	css1, err := build(false, 0)
 	if err != nil {
-		return fail("harness", "%v", err)
+		return fail("error-from-AllComparisonSeries", "%v", err)
 	}
-	css2, err := build(true)
+	css2, err := build(true, 0)
 	if err != nil {
-		return fail("harness", "%v", err)
+		return fail("error-from-AllComparisonSeries", "%v", err)
+	}
+	// the same results (forward or reversed) with the series also built after every few adds
+	css3, err := build(c.Salt%2 == 0, 1+int(c.Salt%7)+(c.NNum+c.NDen)/9)
+	if err != nil {
+		return fail("error-from-AllComparisonSeries", "%v", err)
 	}
 	s1, v := serSummaries(css1, c.Conf, c.N)
 	if !v.OK {
@@ -1039,6 +1125,13 @@ func serReplaySumm(c *serCase) Verdict {
 	}
 	if d := serSameSumm(s1, s2); d != "" {
 		return fail("bootstrap-not-reproducible", "same samples, conf=%g N=%d: %s", c.Conf, c.N, d)
+	}
+	s3, v := serSummaries(css3, c.Conf, c.N)
+	if !v.OK {
+		return v
+	}
+	if d := serSameSumm(s1, s3); d != "" {
+		return fail("bootstrap-not-reproducible-after-intermediate-builds", "same samples (%d+%d values), series also built between the adds, conf=%g N=%d: %s", c.NNum, c.NDen, c.Conf, c.N, d)
 	}
 	return pass()
 }
